@@ -261,6 +261,11 @@ where
     let (checked_patch, outcome, records) = match &req.log_type {
         EventLogType::Identity => {
             let patch = Patch::<WriteEvent>::new(req.patch);
+            // Refuse malformed event data before rewinding
+            patch
+                .into_events::<WriteEvent>()
+                .await
+                .map_err(sos_backend::Error::from)?;
             let (last_commit, records) = if let Some(commit) = &req.commit {
                 let log = storage.identity_log().await?;
                 let mut event_log = log.write().await;
@@ -285,6 +290,11 @@ where
         }
         EventLogType::Account => {
             let patch = Patch::<AccountEvent>::new(req.patch);
+            // Refuse malformed event data before rewinding
+            patch
+                .into_events::<AccountEvent>()
+                .await
+                .map_err(sos_backend::Error::from)?;
             let (last_commit, records) = if let Some(commit) = &req.commit {
                 let log = storage.account_log().await?;
                 let mut event_log = log.write().await;
@@ -309,6 +319,11 @@ where
         }
         EventLogType::Device => {
             let patch = Patch::<DeviceEvent>::new(req.patch);
+            // Refuse malformed event data before rewinding
+            patch
+                .into_events::<DeviceEvent>()
+                .await
+                .map_err(sos_backend::Error::from)?;
             let (last_commit, records) = if let Some(commit) = &req.commit {
                 let log = storage.device_log().await?;
                 let mut event_log = log.write().await;
@@ -334,6 +349,11 @@ where
         #[cfg(feature = "files")]
         EventLogType::Files => {
             let patch = Patch::<FileEvent>::new(req.patch);
+            // Refuse malformed event data before rewinding
+            patch
+                .into_events::<FileEvent>()
+                .await
+                .map_err(sos_backend::Error::from)?;
             let (last_commit, records) = if let Some(commit) = &req.commit {
                 let log = storage.file_log().await?;
                 let mut event_log = log.write().await;
@@ -358,6 +378,11 @@ where
         }
         EventLogType::Folder(id) => {
             let patch = Patch::<WriteEvent>::new(req.patch);
+            // Refuse malformed event data before rewinding
+            patch
+                .into_events::<WriteEvent>()
+                .await
+                .map_err(sos_backend::Error::from)?;
             let (last_commit, records) = if let Some(commit) = &req.commit {
                 let log = storage.folder_log(id).await?;
                 let mut event_log = log.write().await;
